@@ -265,10 +265,6 @@ pub fn run(ctx: &Ctx) -> Shard {
                 } else if let Some(d) = rep.contents.diff(&manifest, false) {
                     shard.violation(ctx, "layout:produced-file-reads-differently", &format!("[page size {}] a file written by the current code from the golden history parses differently: {}", ps, d), &replay);
                 }
-                // and the produced file has the same length discipline (num_pages x pagesize)
-                if bytes.len() as u64 % ps != 0 {
-                    shard.violation(ctx, "layout:file-length-not-page-multiple", &format!("[page size {}] file length {}", ps, bytes.len()), &replay);
-                }
             }
             let _ = std::fs::remove_file(&path);
             if shard.samples.len() < 2 {
